@@ -75,6 +75,14 @@ def run_bin(exe, args, cwd, env, timeout=3000):
         raise ToolError("driver %s %s failed (exit %s):\n%s\n%s" % (exe, args, p.returncode, p.stdout[-2000:], p.stderr[-4000:]))
 
 
+def check_build(events, bld, trace):
+    """the driver logs the MAX_CHUNK_SIZE it was compiled with: a build with the wrong constant is a tool problem"""
+    cfgs = [e for e in events if e["ev"] == "Config"]
+    want = int(SMALL_MAX) if bld == "small" else 1048576
+    if not cfgs or cfgs[0]["max"] != want:
+        raise ToolError("%s: driver of the %s build reports MAX_CHUNK_SIZE=%s, expected %d" % (trace, bld, cfgs[0]["max"] if cfgs else None, want))
+
+
 def listed_known(prop):
     """known findings of prop: known_findings.json plus (testing only) the file named by VERIF_KF_EXTRA"""
     out = list(kf_for(prop))
@@ -163,6 +171,7 @@ def c14(v, w, thorough, replay):
         else:
             nscn = c14_model(v, w, thorough, ids, scn_path)
             shutil.copy(scn_path, cache)
+    os.environ.pop("MAX_CHUNK_SIZE", None)      # the default build must not inherit the small constant
     build(PACKAGES)
     build_small()
     runs = []      # (trace path, build, batch)
@@ -193,6 +202,7 @@ def c14(v, w, thorough, replay):
     for trace, bld, batch in runs:
         rep = validate_trace("client", "ClientDataTrace", tcfg, trace, w, timeout=3000, heap="6g")
         events = read_ndjson(trace)
+        check_build(events, bld, trace)
 
         def payload(e):
             scheds = []
@@ -275,6 +285,7 @@ def c15(v, w, thorough, replay):
         never = [a for a in mc.actions_never_taken() if a.startswith("Do")]
         if never:
             raise ToolError("actions never taken in MCClientAuth: %s" % never)
+    os.environ.pop("MAX_CHUNK_SIZE", None)      # the default build must not inherit the small constant
     build(PACKAGES)
     build_small()
     runs = []
@@ -292,6 +303,7 @@ def c15(v, w, thorough, replay):
     for trace, bld in runs:
         rep = validate_trace("client", "ClientAuthTrace", "ClientAuthTrace.cfg", trace, w, timeout=3000, heap="6g")
         events = read_ndjson(trace)
+        check_build(events, bld, trace)
         for x in rep["violations"]:
             e = events[x["line"] - 1]
             if x["clause"] == "Malformed":
@@ -357,3 +369,4 @@ def run(prop, tier, replay=None):
         c15(v, w, thorough, replay)
     spread(v)
     return v.finish()
+SETUP = [build_small]
